@@ -48,6 +48,7 @@ func init() {
 	kinds[0x0903] = run0903
 	kinds[0x0904] = run0904
 	kinds[0x0905] = run0905
+	kinds[0x0906] = run0906
 	props["C09"] = genC09
 }
 
@@ -98,7 +99,48 @@ func snapSx(dir string) (Sx, error) {
 	return L(out...), nil
 }
 
-type c09rec struct{ cbs []Sx }
+// c09rec records every callback.  mutate: after recording, the consumer WRITES into the *types.Stat it got
+// from Info() (as a filterFS Map callback or an enclosing subDirFS does): that object must be the consumer's
+// own copy, so the rest of this walk and every later walk of the same FS value are unaffected.
+type c09rec struct {
+	cbs    []Sx
+	mutate bool
+}
+
+func c09CopySx(x Sx) Sx {
+	switch x.Kind {
+	case 'b':
+		x.B = append([]byte{}, x.B...)
+	case 'l':
+		l := make([]Sx, len(x.L))
+		for i, e := range x.L {
+			l[i] = c09CopySx(e)
+		}
+		x.L = l
+	}
+	return x
+}
+
+func c09Scribble(st *types.Stat) {
+	st.Path = "MUT/" + st.Path + "~"
+	st.Mode ^= 0777
+	st.Uid += 4242
+	st.Gid = 77
+	st.Size = 99
+	st.ModTime = 1
+	st.Linkname = "mut"
+	st.Devmajor, st.Devminor = 9, 9
+	if st.Xattrs == nil {
+		st.Xattrs = map[string][]byte{}
+	}
+	st.Xattrs["user.mut"] = []byte("x")
+	for k, v := range st.Xattrs {
+		if len(v) > 0 {
+			v[0] ^= 0xff
+		}
+		_ = k
+	}
+}
 
 func (r *c09rec) dirFn(p string, d gofs.DirEntry, err error) error {
 	if err != nil {
@@ -112,7 +154,11 @@ func (r *c09rec) dirFn(p string, d gofs.DirEntry, err error) error {
 	if !ok {
 		return fmt.Errorf("no stat")
 	}
-	r.cbs = append(r.cbs, L(S(p), StatSx(st)))
+	// deep copy: StatSx keeps the byte slices of the stat, which the scribbling consumer changes in place
+	r.cbs = append(r.cbs, c09CopySx(L(S(p), StatSx(st))))
+	if r.mutate {
+		c09Scribble(st)
+	}
 	return nil
 }
 
@@ -233,7 +279,7 @@ func run0902(in Sx) Sx {
 		if code != 0 {
 			return L(L(snaps...), L(), N(code))
 		}
-		rec := &c09rec{}
+		rec := &c09rec{mutate: len(in.L) > 2 && in.L[2].IsTrue()}
 		werr := sfs.Walk(context.Background(), in.L[1].Str(), rec.dirFn)
 		return L(L(snaps...), L(rec.cbs...), errCode(werr))
 	})
@@ -246,6 +292,25 @@ func run0902(in Sx) Sx {
 func c09Steps(f fsutil.FS, steps Sx, failCode uint64) []Sx {
 	var outs []Sx
 	for _, st := range steps.L {
+		mutate := false
+		if st.Kind == 'l' && len(st.L) == 2 && st.L[0].Kind == 'n' {
+			// (#1 target): a judged walk whose consumer scribbles on every stat it receives;
+			// (#2 target): a walk through the real filterFS with a Map callback that edits the stat (not judged)
+			if st.L[0].Int() == 2 {
+				if f != nil {
+					ff, err := fsutil.NewFilterFS(f, &fsutil.FilterOpt{Map: func(_ string, s *types.Stat) fsutil.MapResult {
+						c09Scribble(s)
+						return fsutil.MapResultKeep
+					}})
+					if err == nil {
+						ff.Walk(context.Background(), st.L[1].Str(), (&c09rec{}).dirFn)
+					}
+				}
+				continue
+			}
+			mutate = true
+			st = st.L[1]
+		}
 		if st.Kind == 'l' {
 			if f != nil {
 				var paths []string
@@ -260,7 +325,7 @@ func c09Steps(f fsutil.FS, steps Sx, failCode uint64) []Sx {
 			outs = append(outs, L(L(), N(failCode)))
 			continue
 		}
-		rec := &c09rec{}
+		rec := &c09rec{mutate: mutate}
 		werr := f.Walk(context.Background(), st.Str(), rec.dirFn)
 		outs = append(outs, L(L(rec.cbs...), errCode(werr)))
 	}
@@ -312,6 +377,30 @@ func run0905(in Sx) Sx {
 			sfs = nil
 		}
 		return L(L(snaps...), L(c09Steps(sfs, in.L[1], code)...))
+	})
+}
+
+// run0906: input (outer-dirstat ((dirstat view extra-links [rootform]) ...) (step ...)) -> ((snapshot ...) ((callbacks err) ...)):
+// a NESTED composite: SubDirFS with one sub-root whose FS is the SubDirFS over the inner sub-roots; walked once
+// per step.  err 2 = one of the two SubDirFS constructors refused.
+func run0906(in Sx) Sx {
+	return guarded(func() Sx {
+		dir := WorkDir("c09n-")
+		defer os.RemoveAll(dir)
+		snaps, inner, code, herr := c09Composite(in.L[1], dir)
+		if herr != nil {
+			return harnessErr(herr)
+		}
+		var outer fsutil.FS
+		if code == 0 {
+			o, err := fsutil.SubDirFS([]fsutil.Dir{{Stat: SxStat(in.L[0]), FS: inner}})
+			if err != nil {
+				code = 2
+			} else {
+				outer = o
+			}
+		}
+		return L(L(snaps...), L(c09Steps(outer, in.L[2], code)...))
 	})
 }
 
@@ -769,6 +858,21 @@ func c09View(r *Rng, big bool) ([]*MNode, Sx, string) {
 	for _, f := range flat {
 		st := f.n.Stat
 		m := os.FileMode(st.Mode)
+		// xattr NAMES around the skip rule of loadXattr (keys starting with "com.apple." are dropped; such a
+		// name cannot be set on Linux, where every name carries a namespace): names that contain the prefix
+		// after the namespace, only part of it, or something that merely looks like it.  user.* needs a regular
+		// file or a directory.  The oracle is llistxattr/lgetxattr of the snapshot: everything must be reported.
+		if (m.IsRegular() && st.Linkname == "" || m.IsDir()) && r.Chance(12) {
+			if st.Xattrs == nil {
+				st.Xattrs = map[string][]byte{}
+			}
+			for q := 1 + r.Intn(2); q > 0; q-- {
+				k := Pick(r, []string{"user.com.apple.quarantine", "user.com.apple", "user.com.apple.", "user.xcom.apple.y",
+					"user.com.applex", "user.com.apple.metadata:_kMDItemUserTags", "trusted.com.apple.x", "user.user.com.apple.z",
+					"user.COM.APPLE.q", "user.com", "security.com.apple.s", "user.com.apple.ResourceFork"})
+				st.Xattrs[k] = fillContent(r, r.Intn(5))
+			}
+		}
 		// user.* xattrs are refused by the kernel on special files and symlinks: trusted.* works (root)
 		if m&(os.ModeNamedPipe|os.ModeDevice|os.ModeSocket|os.ModeSymlink) != 0 && r.Chance(15) {
 			st.Xattrs = map[string][]byte{"trusted.s": fillContent(r, r.Intn(4))}
@@ -930,6 +1034,19 @@ func c09Directed() []c09case {
 	for _, steps := range []Sx{L(S(""), S("")), L(S("s/a"), S("")), L(S("r"), S("s"), S(""))} {
 		add(0x0905, L(L(L(dst("s"), classic, hl), L(dst("r"), ViewSx(abs), L())), steps), "one SubDirFS value, steps "+steps.String())
 	}
+	// consumers that write into the stat they get from Info(), and nested composites
+	add(0x0902, L(L(L(dst("s"), classic, L()), L(dst("r"), ViewSx(abs), L())), S(""), NI(1)), "two sub-roots, the consumer scribbles on every stat it receives")
+	for _, steps := range []Sx{L(L(N(1), S("")), S("")), L(L(N(2), S("")), S("")), L(L(N(1), S("s")), L(N(1), S("")), S("s/a"))} {
+		add(0x0905, L(L(L(dst("s"), classic, hl), L(dst("r"), ViewSx(abs), L())), steps), "one SubDirFS value, writing consumers / filterFS Map, steps "+steps.String())
+	}
+	for _, steps := range []Sx{L(S(""), S("")), L(L(N(1), S("")), S("")), L(S("o/s/a"), S("o"), S("")), L(S("s"), S("o/x"), L(N(2), S("")), S("o/s"))} {
+		add(0x0906, L(dst("o"), L(L(dst("s"), classic, hl), L(dst("r"), ViewSx(abs), L())), steps), "SubDirFS o over SubDirFS {r, s}, steps "+steps.String())
+	}
+	xa := []*MNode{c09Dir("d", c09File("f", "x")), c09File("q", "1"), c09File("z", "")}
+	xa[0].Stat.Xattrs = map[string][]byte{"user.com.apple.quarantine": []byte("0081;"), "user.com.applex": {}}
+	xa[0].Kids[0].Stat.Xattrs = map[string][]byte{"user.com.apple.": []byte("v"), "user.xcom.apple.y": []byte("w")}
+	xa[1].Stat.Xattrs = map[string][]byte{"user.com.apple.metadata:_kMDItemUserTags": {1, 2}, "trusted.com.apple.x": {}, "user.com.apple": []byte("p")}
+	add(0x0901, L(ViewSx(xa), L(), S(""), NI(0)), "xattr names around the com.apple. skip rule: user.com.apple.*, user.com.apple, user.com.applex, user.xcom.apple.y, trusted.com.apple.x")
 	return out
 }
 
@@ -1059,7 +1176,12 @@ func genC09(g *Gen) {
 	for i := 0; i < m; i++ {
 		c := c09GenComposite(r)
 		target, tcls := c09CompositeTarget(r, c, 70)
-		g.Emit(0x0902, L(L(c.sds...), S(target)), c.nontriv, c.cls+tcls+c.rooted)
+		mut := 0
+		if r.Chance(30) {
+			mut = 1
+			tcls += "-mut"
+		}
+		g.Emit(0x0902, L(L(c.sds...), S(target), NI(mut)), c.nontriv, c.cls+tcls+c.rooted)
 	}
 	// (c) walk history on ONE NewFS value: 2..4 steps (root, sub-targets, root again, FollowLinks in
 	// between) over trees with hard-link groups; every walk is judged on its own
@@ -1087,14 +1209,20 @@ func genC09(g *Gen) {
 				steps = append(steps, L(paths...))
 				hcls += "F"
 			}
+			var step Sx
 			if r.Chance(45) {
-				steps = append(steps, S(Pick(r, []string{"", "", "/", "."})))
+				step = S(Pick(r, []string{"", "", "/", "."}))
 				hcls += "R"
 			} else {
 				t, _ := c09Target(r, view)
-				steps = append(steps, S(t))
+				step = S(t)
 				hcls += "T"
 			}
+			if r.Chance(20) {
+				step = L(N(1), step) // the consumer scribbles on the stats it receives
+				hcls += "m"
+			}
+			steps = append(steps, step)
 		}
 		rf := c09PickRootForm(r)
 		g.Emit(0x0904, L(ViewSx(view), extras, NI(rf), L(steps...)), c09Nontrivial(view) && len(extras.L) > 0,
@@ -1108,11 +1236,57 @@ func genC09(g *Gen) {
 		hcls := ""
 		for w := 2 + r.Intn(2); w > 0; w-- {
 			t, tc := c09CompositeTarget(r, c, 40)
-			steps = append(steps, S(t))
-			hcls += tc
+			steps, hcls = c09AppendStep(r, steps, hcls, t, tc)
 		}
 		g.Emit(0x0905, L(L(c.sds...), L(steps...)), c.nontriv, "history-"+c.cls+hcls+c.rooted)
 	}
+	// (e) NESTED composites: a SubDirFS whose only sub-root is a SubDirFS (the outer walk rewrites the stats the
+	// inner walk hands out), walked 2..3 times, with reading and with writing consumers
+	ns := g.Vol(50, 900)
+	for i := 0; i < ns; i++ {
+		c := c09GenComposite(r)
+		oname := Pick(r, []string{"o", "outer", "a", "lib", "é", "a-b", strings.Repeat("o", 255)})
+		if len(c.names) > 0 && r.Chance(20) {
+			oname = c.names[0] // outer and inner name coincide
+		}
+		ost := &types.Stat{Path: oname, Mode: uint32(os.ModeDir) | 0755, Uid: uint32(Pick(r, []int{0, 1000})),
+			ModTime: int64(1600000000+r.Intn(1000))*1e9 + int64(r.Intn(1e9))}
+		if r.Chance(20) {
+			ost.Xattrs = map[string][]byte{"user.o": []byte("y")}
+		}
+		var steps []Sx
+		hcls := ""
+		for w := 2 + r.Intn(2); w > 0; w-- {
+			t, tc := c09CompositeTarget(r, c, 50)
+			switch {
+			case t == "" || t == "/":
+			case r.Chance(85) && !strings.HasPrefix(t, "/"):
+				t = oname + "/" + t
+			default:
+				tc += "x" // the inner target without the outer name: selects nothing
+			}
+			if t == "" && r.Chance(15) {
+				t, tc = oname, "-o"
+			}
+			steps, hcls = c09AppendStep(r, steps, hcls, t, tc)
+		}
+		g.Emit(0x0906, L(StatSx(ost), L(c.sds...), L(steps...)), c.nontriv, "nested-"+c.cls+hcls+c.rooted)
+	}
+}
+
+// c09AppendStep: a walk step for a composite history; 35% of the walks have a consumer that scribbles on the
+// stats it receives, and now and then a walk through the real filterFS with an editing Map comes first.
+func c09AppendStep(r *Rng, steps []Sx, hcls, t, tc string) ([]Sx, string) {
+	if r.Chance(15) {
+		steps = append(steps, L(N(2), S("")))
+		hcls += "-flt"
+	}
+	step := S(t)
+	if r.Chance(35) {
+		step = L(N(1), step)
+		tc += "m"
+	}
+	return append(steps, step), hcls + tc
 }
 
 type c09composite struct {
